@@ -62,6 +62,12 @@ def jobs(tier):
     for dmg in (["intact", "flip", "intact"], ["missing", "intact", "intact"], ["intact", "intact", "trunc"]):
         out.append(("v1.ungrouped3.P16384.%s.ref" % "-".join(k[0] for k in dmg), "job_recheck",
                     dict(prop="C04", version=1, shape="ungrouped3", P=16384, K=1, dmg=dmg, source="ref")))
+    for source in ("ref", "own"):       # piece-aligned v1 metafiles (padding entries between the files)
+        for dmg in (["intact", "flip"], ["flip", "intact"], ["trunc", "intact"], ["intact", "missing"]):
+            out.append(("v1.flat2.P16384.aligned.%s.%s" % (source, "-".join(k[0] for k in dmg)), "job_recheck",
+                        dict(prop="C04", version=1, shape="flat2", P=16384, K=2, dmg=dmg, source=source, aligned=True)))
+        out.append(("v1.nested3.P16384.aligned.%s.i-i-f" % source, "job_recheck",
+                    dict(prop="C04", version=1, shape="nested3", P=16384, K=1, dmg=["intact", "intact", "flip"], source=source, aligned=True)))
     out.extend(rk.matrix_rows(tier, "C04"))
     # a long-lived Checker: verified while intact, content damaged afterwards, verified again on the same object
     for version in (1, 2, 3):
